@@ -113,9 +113,9 @@ def for_property(pid, workers=6):
 if __name__ == "__main__":
     if len(sys.argv) > 1 and sys.argv[1] == "matrix":
         sel = sys.argv[2:] or None
-        out = run(selected=sel, props=ALL, workers=8)
+        out = run(selected=sel, props=ALL, workers=int(os.environ.get("NDI_MATRIX_WORKERS", "8")), slot_base=os.environ.get("NDI_MATRIX_SLOT", ""))
         for n in sorted(out):
             o = out[n]
             fires = [p for p, r in o["results"].items() if r["exit"] == 1]
             print(n, o["status"], "fires:", " ".join(fires))
-        json.dump(out, open("/tmp/ndi-matrix.json", "w"), indent=1)
+        json.dump(out, open(os.environ.get("NDI_MATRIX_OUT", "/tmp/ndi-matrix.json"), "w"), indent=1)
